@@ -1,6 +1,7 @@
 (* Proofs/DecodeSessionProofs.v - several decoded bodies alive at once: what response i reads is a
    function of response i's own body and own operations (C14). *)
-From ReqV Require Import Lib.Bytes Lib.BytesFacts Model.Decode Model.DecodeSession Proofs.DecodeProofs.
+From ReqV Require Import Lib.Bytes Lib.BytesFacts Gen.CompressReaders Model.Decode Model.DecodeSession
+  Proofs.DecodeProofs.
 From Coq Require Import Lia.
 
 (* ---------- lists ---------- *)
@@ -451,3 +452,22 @@ Lemma pooled_refuted :
   results_of 1 pooled_ops (fst (sess_run id_codec pooled_ops (sess_open pooled_bodies))) =
     [(bs "bb", StOk); (bs "bbbbbb", StEnd EOF)].
 Proof. vm_compute. repeat split. discriminate. Qed.
+
+(* ---------- the allocation discipline, read off the source (Gen/CompressReaders.v) ---------- *)
+
+Definition is_decoder_field (x : bytes * bytes * bytes * bytes) : bool :=
+  let f := snd (fst x) in
+  bytes_eqb f (bs "zr") || bytes_eqb f (bs "dr") || bytes_eqb f (bs "br").
+
+(* internal/compress has no package-level variable, and the decoder field of each of the five lazy
+   readers is assigned in exactly one place: in Read, the result of the codec's constructor applied to
+   the reader's own body - what `sess_step` models by handing out a new heap address *)
+Lemma readers_allocate :
+  compress_pkg_vars = [] /\
+  filter is_decoder_field reader_field_assignments =
+  [ (bs "BrotliReader", bs "Read", bs "br", bs "brotli.NewReader(br.Body)");
+    (bs "DeflateReader", bs "Read", bs "dr", bs "flate.NewReader(df.Body)");
+    (bs "GzipReader", bs "Read", bs "zr", bs "gzip.NewReader(gz.Body)");
+    (bs "ZstdReader", bs "Read", bs "zr", bs "zstd.NewReader(zr.Body)");
+    (bs "gzipReader", bs "Read", bs "zr", bs "gzip.NewReader(gz.body)") ].
+Proof. split; reflexivity. Qed.
